@@ -43,8 +43,30 @@ Theorem C05_precedence : forall ops t,
                       else if (t =? 0)%Z then (Z.of_N max_timeout_seconds * 1000000000)%Z else t.
 Proof. reflexivity. Qed.
 
+From Scrapli Require Import Network ChanTrace ChanTraceLemmas.
+
+(* for every channel operation (send-input, get-prompt, interactive and callback sends, both logins, Open, escalate, de-escalate, AcquirePriv): a path on which a read was handed the deadline ends with the timeout error, and nothing is written or read after it *)
+Theorem C05_timeout_is_timeout : forall (p : prog bytes) (cfg : chan_cfg) (t : list obs) (r : bytes + err) (c : cond), chan_op p cfg -> ctrace cfg p t r -> In (OErr c ETimeout) t -> r = inr ETimeout /\ (exists t0 : list obs, t = t0 ++ [OErr c ETimeout]).
+Proof. exact @timeout_is_timeout. Qed.
+
+(* a failed implicit privilege change is reported as a privilege error, whatever the cause *)
+Theorem C05_implicit_acquire_is_privilege : forall (net : netcfg) (cached : bytes) (t : list obs) (r : bytes + err), ctrace (n_chan net) (acquire_default net cached) t r -> match r with | inl _ => True | inr e => e = EPrivilege end.
+Proof. exact @implicit_acquire_failure_is_privilege. Qed.
+
+(* network SendCommand: privilege error if the failure was in the implicit change, otherwise the error itself *)
+Theorem C05_send_command_errors : forall (net : netcfg) (cached cmd : bytes) (o : op_opts) (t : list obs) (r : bytes + err) (c : cond) (e : err), ctrace (n_chan net) (net_send_command net cached cmd o) t r -> In (OErr c e) t -> (r = inr EPrivilege \/ r = inr e) /\ (exists t0 : list obs, t = t0 ++ [OErr c e]).
+Proof. exact @net_send_command_errors. Qed.
+
+(* ... transferred to executions *)
+Theorem C05_timeout_in_every_run : forall (D : Type) (feed : D -> bytes -> D * bytes) (p : prog bytes) (cfg : chan_cfg) (d : D) (start : bytes) (sched : list ev), chan_op p cfg -> let st := run feed cfg sched (init_sys d start p) in exists t : list obs, s_wlog st = writes_of t /\ (forall r : bytes + err, outcome st = Some r -> forall c : cond, In (OErr c ETimeout) t -> r = inr ETimeout /\ (exists t0 : list obs, t = t0 ++ [OErr c ETimeout])).
+Proof. exact @run_timeout_is_timeout. Qed.
+
 Print Assumptions C05_deadline_fires.
 Print Assumptions C05_timeout_error.
 Print Assumptions C05_failed_is_final.
 Print Assumptions C05_deadline_elsewhere.
 Print Assumptions C05_precedence.
+Print Assumptions C05_timeout_is_timeout.
+Print Assumptions C05_implicit_acquire_is_privilege.
+Print Assumptions C05_send_command_errors.
+Print Assumptions C05_timeout_in_every_run.
